@@ -220,6 +220,11 @@ pub struct Sem<'a> {
     loop_vars: Vec<String>,
     /// >0 inside an `if` branch: defs there exist only conditionally and are not used later
     cond_depth: usize,
+    /// number of variable scopes that lie outside the record being written (None: not in a record)
+    rec_base: Option<usize>,
+    /// names that must not be mentioned at the current point (their resolution is ambiguous or
+    /// differs between TableGen versions)
+    hidden: Vec<String>,
     uninit: std::collections::BTreeSet<usize>,
     wrote_unset: bool,
     mc_depth: usize,
@@ -266,6 +271,8 @@ impl<'a> Sem<'a> {
             exclude_if_let_scope_probe: false,
             loop_vars: Vec::new(),
             cond_depth: 0,
+            rec_base: None,
+            hidden: Vec::new(),
             uninit: Default::default(),
             wrote_unset: false,
             mc_depth: 0,
@@ -414,37 +421,42 @@ impl<'a> Sem<'a> {
         out
     }
 
-    /// variables (innermost first), then fields/template args of the record, of exactly type `ty`
-    fn visible_of_type(&self, ty: &Ty) -> Vec<(String, usize)> {
-        let mut out: Vec<(String, usize)> = Vec::new();
-        let mut seen: Vec<String> = Vec::new();
-        for sc in self.scopes.iter().rev() {
-            for v in sc.iter().rev() {
-                if !seen.contains(&v.name) {
-                    seen.push(v.name.clone());
-                    if v.ty == *ty {
-                        out.push((v.name.clone(), v.decl));
-                    }
+    /// every visible name in lookup order (the first entry of a name is the one it resolves to):
+    /// variables declared inside the current record (innermost first), the record's fields, its
+    /// template arguments, then the variables of the enclosing scopes
+    fn visible_names(&self) -> Vec<(String, Ty, usize)> {
+        let base = self.rec_base.unwrap_or(self.scopes.len()).min(self.scopes.len());
+        let mut out: Vec<(String, Ty, usize)> = Vec::new();
+        let mut push = |n: &String, t: &Ty, d: usize, out: &mut Vec<(String, Ty, usize)>| {
+            if !out.iter().any(|x| x.0 == *n) && !self.hidden.contains(n) {
+                out.push((n.clone(), t.clone(), d));
+            }
+        };
+        if self.rec_base.is_some() {
+            for sc in self.scopes[base..].iter().rev() {
+                for v in sc.iter().rev() {
+                    push(&v.name, &v.ty, v.decl, &mut out);
                 }
             }
         }
         for (n, t, d) in self.rec_fields.iter().rev() {
-            if !seen.contains(n) {
-                seen.push(n.clone());
-                if t == ty {
-                    out.push((n.clone(), *d));
-                }
-            }
+            push(n, t, *d, &mut out);
         }
         for (n, t, d) in self.rec_targs.iter().rev() {
-            if !seen.contains(n) {
-                seen.push(n.clone());
-                if t == ty {
-                    out.push((n.clone(), *d));
-                }
+            push(n, t, *d, &mut out);
+        }
+        let outer_end = if self.rec_base.is_some() { base } else { self.scopes.len() };
+        for sc in self.scopes[..outer_end].iter().rev() {
+            for v in sc.iter().rev() {
+                push(&v.name, &v.ty, v.decl, &mut out);
             }
         }
         out
+    }
+
+    /// visible names of exactly type `ty`
+    fn visible_of_type(&self, ty: &Ty) -> Vec<(String, usize)> {
+        self.visible_names().into_iter().filter(|x| x.1 == *ty).map(|x| (x.0, x.2)).collect()
     }
 
     fn defs_of_class(&self, class: &str) -> Vec<(String, usize)> {
@@ -1287,13 +1299,22 @@ impl<'a> Sem<'a> {
             };
             self.write_type(&ty);
             self.w(" ");
-            let name = self.fresh("p");
+            let base = self.rec_base.unwrap_or(0).min(self.scopes.len());
+            let outer: Vec<String> = self.scopes[..base].iter().flatten().map(|v| v.name.clone()).filter(|n| !out.iter().any(|t| t.0 == *n)).collect();
+            let name = if !outer.is_empty() && self.rng.chance(1, 8) && self.on("template-arg-shadows-variable") {
+                self.p.feat.shadowing = true;
+                outer[self.rng.below(outer.len())].clone()
+            } else {
+                self.fresh("p")
+            };
             let d = self.declare(DeclKind::TemplateArg, &name, Some(ty.clone()), None, Some(owner));
             let has_default = i >= first_default;
             if has_default {
                 self.w(" = ");
-                // defaults may use earlier template arguments
+                // defaults may use earlier template arguments (not the argument itself)
+                self.hidden.push(name.clone());
                 self.value(&ty, 2);
+                self.hidden.pop();
             }
             self.rec_targs.push((name.clone(), ty.clone(), d));
             out.push((name, ty, has_default, d));
@@ -1304,6 +1325,7 @@ impl<'a> Sem<'a> {
 
     fn parent_list(&mut self) -> Vec<String> {
         let mut parents = Vec::new();
+        let hidden_mark = self.hidden.len();
         if self.classes.is_empty() || self.rng.chance(1, 3) {
             return parents;
         }
@@ -1323,8 +1345,13 @@ impl<'a> Sem<'a> {
             }
             self.w(if i == 0 || parents.is_empty() { " : " } else { ", " });
             self.class_ref(&c, 1, false);
+            // the fields of a parent are in scope in the argument lists of the parents after it
+            // (TableGen adds each superclass before it parses the next): no expectation on those names
+            let names: Vec<String> = self.class(&c).map(|ci| ci.fields.keys().cloned().collect()).unwrap_or_default();
+            self.hidden.extend(names);
             parents.push(c);
         }
+        self.hidden.truncate(hidden_mark);
         parents
     }
 
@@ -1342,13 +1369,18 @@ impl<'a> Sem<'a> {
 
     /// record body; returns own+inherited field table
     fn body(&mut self, owner: usize, mut fields: BTreeMap<String, (Ty, usize)>, allow_new_fields: bool) -> BTreeMap<String, (Ty, usize)> {
+        let hidden_mark = self.hidden.len();
         for (n, (t, d)) in &fields {
             if !self.uninit.contains(d) {
                 self.rec_fields.push((n.clone(), t.clone(), *d));
+            } else {
+                // not usable by name, and it hides every outer variable of that name
+                self.hidden.push(n.clone());
             }
         }
         if self.rng.chance(1, 5) {
             self.w(";");
+            self.hidden.truncate(hidden_mark);
             return fields;
         }
         self.w(" {");
@@ -1378,9 +1410,20 @@ impl<'a> Sem<'a> {
                     }
                     self.write_type(&ty);
                     self.w(" ");
-                    let name = self.fresh("f");
+                    // sometimes the field takes the name of a variable of an enclosing scope: inside the
+                    // record the field is the innermost declaration of that name
+                    let base = self.rec_base.unwrap_or(0).min(self.scopes.len());
+                    let outer: Vec<String> = self.scopes[..base].iter().flatten().map(|v| v.name.clone()).filter(|n| !fields.contains_key(n) && !self.rec_targs.iter().any(|t| t.0 == *n)).collect();
+                    let name = if !outer.is_empty() && self.rng.chance(1, 6) && self.on("field-shadows-variable") {
+                        self.p.feat.shadowing = true;
+                        outer[self.rng.below(outer.len())].clone()
+                    } else {
+                        self.fresh("f")
+                    };
                     let d = self.declare(DeclKind::Field, &name, Some(ty.clone()), doc, Some(owner));
                     let mut init = self.rng.chance(3, 4);
+                    // the field is in scope in its own initialiser (where mentioning it is an error)
+                    self.hidden.push(name.clone());
                     if init {
                         self.w(" = ");
                         self.wrote_unset = false;
@@ -1397,8 +1440,10 @@ impl<'a> Sem<'a> {
                     // a field without initialiser is `?`: mentioning it in another initialiser cannot be
                     // resolved when a def is instantiated, so it is declared but not used by name
                     if init {
+                        self.hidden.pop();
                         self.rec_fields.push((name, ty, d));
                     } else {
+                        // stays hidden for the rest of the body
                         self.uninit.insert(d);
                     }
                 }
@@ -1415,6 +1460,9 @@ impl<'a> Sem<'a> {
                     // `let f = f` is rejected by TableGen (self-assignment): hide the field itself
                     let saved = self.rec_fields.clone();
                     // … and every field declared after it (a later field may depend on it: evaluation cycle)
+                    let let_mark = self.hidden.len();
+                    let gone: Vec<String> = self.rec_fields.iter().filter(|f| !(f.0 != n && f.2 < d)).map(|f| f.0.clone()).collect();
+                    self.hidden.extend(gone);
                     self.rec_fields.retain(|f| f.0 != n && f.2 < d);
                     let v0 = self.here();
                     self.wrote_unset = false;
@@ -1424,6 +1472,7 @@ impl<'a> Sem<'a> {
                         self.p.typed_sites.push((self.cur, r, ty.clone(), "let-value"));
                     }
                     self.rec_fields = saved;
+                    self.hidden.truncate(let_mark);
                     self.w(";");
                 }
                 6 => {
@@ -1433,10 +1482,14 @@ impl<'a> Sem<'a> {
                     let d = self.declare(DeclKind::Defvar, &name, Some(ty.clone()), None, None);
                     self.w(" = ");
                     // LLVM 14 does not let a body-level defvar initialiser mention fields: hide them
+                    let dv_mark = self.hidden.len();
+                    let gone: Vec<String> = self.rec_fields.iter().map(|f| f.0.clone()).chain(self.rec_targs.iter().map(|f| f.0.clone())).collect();
+                    self.hidden.extend(gone);
                     let saved = std::mem::take(&mut self.rec_fields);
                     let saved_t = std::mem::take(&mut self.rec_targs);
                     let before = self.untyped_uses;
                     self.value(&ty, 1);
+                    self.hidden.truncate(dv_mark);
                     if self.untyped_uses != before {
                         self.p.decls[d].ty = None;
                         self.tainted.insert(d);
@@ -1460,6 +1513,7 @@ impl<'a> Sem<'a> {
         self.indent -= 1;
         self.nl();
         self.w("}");
+        self.hidden.truncate(hidden_mark);
         fields
     }
 
@@ -1481,6 +1535,7 @@ impl<'a> Sem<'a> {
         // the class is registered (without fields yet) so that its own body may mention it in types
         self.rec_targs.clear();
         self.rec_fields.clear();
+        let saved_base = self.rec_base.replace(self.scopes.len());
         let targs = self.template_args(decl);
         let parents = self.parent_list();
         let inherited = self.inherited_fields(&parents);
@@ -1490,6 +1545,7 @@ impl<'a> Sem<'a> {
         }
         self.rec_targs.clear();
         self.rec_fields.clear();
+        self.rec_base = saved_base;
         self.classes.push(ClassInfo { decl, name, targs, fields, parents });
         self.stmt_end("Class", start, Some(decl), true, None);
     }
@@ -1523,10 +1579,12 @@ impl<'a> Sem<'a> {
         if in_multiclass {
             self.rec_targs = mc_targs;
         }
+        let saved_base = self.rec_base.replace(self.scopes.len());
         let parents = self.parent_list();
         let inherited = self.inherited_fields(&parents);
         let new_fields = self.rng.chance(1, 3);
         let _ = self.body(decl, inherited, new_fields);
+        self.rec_base = saved_base;
         self.rec_targs = saved_t;
         self.rec_fields = saved_f;
         if !in_multiclass && !pasted {
